@@ -25,7 +25,7 @@ CONFIG = {"quick": {"shards": 8, "timeout_s": 600, "cases": 120},
           "thorough": {"shards": 16, "timeout_s": 3000, "cases": 3000}}
 REQUIRED_COUNTERS = ["roundtrips_json_string", "roundtrips_json_file", "roundtrips_json_encrypted", "roundtrips_pickle", "tables_compared",
                      "fluid_properties_compared", "std_types_compared", "pipeflow_on_loaded_compared", "nets_with_results", "nets_without_results",
-                     "nets_with_custom_fluid", "nets_with_user_pump", "nets_with_controller", "multinets_roundtripped"]
+                     "nets_with_custom_fluid", "nets_with_modified_library_fluid", "nets_with_user_pump", "nets_with_controller", "multinets_roundtripped"]
 PATHS = ["json_string", "json_file", "json_encrypted", "pickle"]
 
 
@@ -221,6 +221,14 @@ def make_net(case, obs):
         f2.add_property("tab", fl.FluidPropertyInterExtra(np.array([260.0, 300.0, 380.0]), rng.uniform(1, 9, 3)))
         net.fluid = f2
         obs.count("nets_with_custom_fluid")
+    elif rng.random() < 0.6:
+        # a library fluid (name unchanged) whose properties the user overwrote / extended
+        if not net.fluid.is_gas and rng.random() < 0.5:
+            pp.create_constant_property(net, "viscosity", float(rng.uniform(4e-4, 1.2e-3)))
+        pp.create_linear_property(net, "my_extra", float(rng.uniform(-1, 1)), float(rng.uniform(0, 5)))
+        if rng.random() < 0.5:
+            pp.create_constant_property(net, "heat_capacity", float(rng.uniform(3900, 4300) if not net.fluid.is_gas else rng.uniform(1900, 2400)))
+        obs.count("nets_with_modified_library_fluid")
     if rng.random() < 0.5 and not net.fluid.is_gas:
         jj = list(net.junction.index)
         pp.create_pump_from_parameters(net, jj[0], jj[-1], "userpump%d" % case["i"], pressure_list=[6.0, 5.0, 3.5], flowrate_list=[0, 30, 90],
